@@ -452,7 +452,7 @@ func (echoHandler) Handle(ctx context.Context, req packet.Request) (packet.Respo
 func runJoin(c joinCase) harness.Result {
 	a := &server.ModbusTCPAssembler{Handler: echoHandler{}}
 	s := c.Seed
-	var read, want []byte
+	var read, want, prevFrame, prevReply []byte
 	inRead := 0
 	for i := 0; i < c.N; i++ {
 		v := harness.SplitMix64(&s)
@@ -465,8 +465,30 @@ func runJoin(c joinCase) harness.Result {
 			r.Qty = 1
 		}
 		fr := spec.EncodeRequest(spec.TCP, r)
+		reply := []byte{fr[0], fr[1], 0, 0, 0, 3, fr[6], fr[7], byte(len(fr))}
+		if v%5 == 0 {
+			// a frame with a function code the library does not support: classified as such, answered with the illegal-function exception
+			ufc := []uint8{7, 8, 11, 20, 43, 65, 100}[int(v>>52)%7]
+			fr = spec.Frame(spec.TCP, r.Tx, r.Unit, []byte{ufc, 1, 2, 3})
+			reply = []byte{fr[0], fr[1], 0, 0, 0, 3, fr[6], ufc | 0x80, 1}
+		}
+		switch {
+		case prevFrame != nil && i%4 == 1:
+			// the previous frame once more under the next transaction id (a master polling)
+			fr = append([]byte(nil), prevFrame...)
+			fr[0], fr[1] = byte(i>>8), byte(i)
+			reply = append([]byte(nil), prevReply...)
+			reply[0], reply[1] = fr[0], fr[1]
+		case prevFrame != nil && i%6 == 2:
+			// the previous frame once more for the neighbouring unit, under the same transaction id (a master with a constant id)
+			fr = append([]byte(nil), prevFrame...)
+			fr[6] ^= 1
+			reply = append([]byte(nil), prevReply...)
+			reply[6] = fr[6]
+		}
+		prevFrame, prevReply = fr, reply
 		read = append(read, fr...)
-		want = append(want, fr[0], fr[1], 0, 0, 0, 3, fr[6], fr[7], byte(len(fr)))
+		want = append(want, reply...)
 		inRead++
 		if inRead < c.PerRead && i+1 < c.N {
 			continue
